@@ -44,6 +44,9 @@ pub struct NativeKey;
 
 impl Sub for NativeKey {
     type Case = NativeCase;
+    fn restrictable(&self) -> bool {
+        true
+    }
     fn name(&self) -> &'static str {
         "native_key_with_reference"
     }
@@ -198,6 +201,9 @@ pub struct VerifierAgreement;
 
 impl Sub for VerifierAgreement {
     type Case = AgreeCase;
+    fn restrictable(&self) -> bool {
+        true
+    }
     fn name(&self) -> &'static str {
         "verifier_agreement"
     }
